@@ -6,10 +6,13 @@ import (
 	"fmt"
 	"os"
 	"os/exec"
+	"os/signal"
 	"path/filepath"
+	"strconv"
 	"strings"
 	"syscall"
 	"testing"
+	"verifharness/ref/scen"
 
 	"github.com/akalin/gopar/par1"
 	"github.com/akalin/gopar/par2"
@@ -33,6 +36,12 @@ func TestRealFSWorker(t *testing.T) {
 		t.Skip("worker entry point")
 	}
 	var r rfReply
+	if lim := os.Getenv("VERIF_C18_RF_FSIZE"); lim != "" {
+		// writes beyond this file size fail with EFBIG (a partial write precedes the failure)
+		n, _ := strconv.ParseUint(lim, 10, 64)
+		signal.Ignore(syscall.SIGXFSZ)
+		syscall.Setrlimit(syscall.RLIMIT_FSIZE, &syscall.Rlimit{Cur: n, Max: n})
+	}
 	if os.Getenv("VERIF_C18_RF_CREATE") == "1" {
 		// Create into a directory in which one output name is a symbolic link to /dev/full: open succeeds, write(2) fails
 		dir := filepath.Dir(idx)
@@ -92,6 +101,10 @@ type RFCase struct {
 }
 
 func runRF(c RFCase) (msg string) {
+	var tk int
+	if n, _ := fmt.Sscanf(c.Fault, "torn-write-fsize-%d", &tk); n == 1 {
+		return runTorn(tk)
+	}
 	root := run.Scratch("c18rf")
 	defer func() {
 		filepath.Walk(root, func(p string, info os.FileInfo, err error) error { os.Chmod(p, 0o777); return nil })
@@ -211,10 +224,89 @@ func runRF(c RFCase) (msg string) {
 	return ""
 }
 
+// runTorn: a write on the real filesystem that fails part-way (file size limit) leaves a torn file; the fault is then
+// removed and Repair is run again.  The torn write destroyed less than the remaining recovery capacity, so the second
+// run has to restore everything.
+func runTorn(k int) string {
+	root := run.Scratch("c18torn")
+	defer os.RemoveAll(root)
+	os.Chmod(root, 0o755)
+	dir := filepath.Join(root, "w")
+	os.MkdirAll(dir, 0o755)
+	a := (scen.FileSpec{Name: "a", Size: 10*1024 - 100*k, Kind: "random", Seed: uint64(80 + k)}).Content(1024)
+	b := []byte("second file")
+	pa := filepath.Join(dir, "a.dat")
+	os.WriteFile(pa, a, 0o644)
+	os.WriteFile(filepath.Join(dir, "b.dat"), b, 0o644)
+	idx := filepath.Join(dir, "set.par2")
+	if err := par2.Create(idx, []string{pa, filepath.Join(dir, "b.dat")}, par2.CreateOptions{SliceByteCount: 1024, NumParityShards: 3, NumGoroutines: 1}); err != nil {
+		return "harness: Create failed: " + err.Error()
+	}
+	d := append([]byte{}, a...)
+	d[5] ^= 0x40
+	os.WriteFile(pa, d, 0o644)
+	filepath.Walk(root, func(p string, info os.FileInfo, err error) error { os.Chown(p, 65534, 65534); return nil })
+	runWorker := func(env ...string) (rfReply, bool) {
+		cmd := exec.Command(os.Args[0], "-test.run", "^TestRealFSWorker$", "-test.v")
+		cmd.Env = append(append(os.Environ(), "VERIF_C18_RF_INDEX="+idx), env...)
+		cmd.SysProcAttr = &syscall.SysProcAttr{Credential: &syscall.Credential{Uid: 65534, Gid: 65534}}
+		cmd.Dir = "/"
+		out, _ := cmd.CombinedOutput()
+		var r rfReply
+		i := bytes.Index(out, []byte("RFREPLY "))
+		if i < 0 {
+			return r, false
+		}
+		line := out[i+8:]
+		if j := bytes.IndexByte(line, '\n'); j >= 0 {
+			line = line[:j]
+		}
+		return r, json.Unmarshal(line, &r) == nil
+	}
+	r1, ok := runWorker("VERIF_C18_RF_FSIZE=8192")
+	if !ok {
+		return "INCONCLUSIVE"
+	}
+	if r1.Pan != "" {
+		return "panicked: " + r1.Pan
+	}
+	if r1.RepairErr == "" {
+		if got, _ := os.ReadFile(pa); !bytes.Equal(got, a) {
+			return "the rewrite of a.dat was cut short by the file size limit but Repair returned nil"
+		}
+		return "INCONCLUSIVE" // the limit did not bite here
+	}
+	r2, ok := runWorker()
+	if !ok {
+		return "INCONCLUSIVE"
+	}
+	if r2.Pan != "" {
+		return "second run panicked: " + r2.Pan
+	}
+	got, _ := os.ReadFile(pa)
+	if r2.RepairErr != "" || !bytes.Equal(got, a) {
+		return fmt.Sprintf("after a write torn at 8192 of %d bytes (8 of 10 slices written, 3 recovery blocks), the fault being gone, Repair does not complete: err=%q, restored=%v", len(a), r2.RepairErr, bytes.Equal(got, a))
+	}
+	return ""
+}
+
 func realFSFaults(rec *run.Rec) {
 	if os.Geteuid() != 0 {
 		rec.Class("realfs-faults-skipped(not root)")
 		return
+	}
+	for k := 0; k < 2; k++ {
+		c := RFCase{Format: "par2", Fault: fmt.Sprintf("torn-write-fsize-%d", k)}
+		rec.Eval()
+		rec.Class("realfs:torn-write-fsize")
+		switch msg := runTorn(k); msg {
+		case "INCONCLUSIVE":
+			rec.Inconclusive("realfs worker could not run with dropped privileges or the file size limit did not bite")
+		case "":
+			rec.NonTrivial(c)
+		default:
+			rec.Fail("realfs", c, "", "par2 torn-write-fsize: "+msg)
+		}
 	}
 	for _, f := range []string{"par2", "par1"} {
 		for _, k := range []string{"nolist", "noread-data", "noread-volume", "nowrite-dir", "nowrite-file", "nowrite-dangling", "create-index-devfull", "create-volume-devfull"} {
